@@ -2,6 +2,6 @@
    sumbool, sumor map to OCaml's; nat stays inductive. *)
 Require Extraction.
 Require Import ExtrOcamlBasic.
-From Atlas Require Import Plan.SortModel.
+From Atlas Require Import Plan.SortModel Plan.SortObjModel Plan.SortTidbModel Plan.SortSqliteModel.
 Extraction Language OCaml.
-Extraction "model.ml" plan replay mysql_sources pg_sources DetachCycles SortChanges sortMap dependencies qn qcode topLevel plan_all.
+Extraction "model.ml" plan replay mysql_sources pg_sources DetachCycles SortChanges sortMap dependencies qn qcode topLevel plan_all xplan xDetachCycles xSortChanges xpg_sources treplay xreplay erase_all tidb_plan tidb_order tidb_sources priority sqlite_plan sreplay skipFKs alterable.
